@@ -43,7 +43,11 @@ Hosts == {
   <<"bad_underscore_port", "exa_mple.com:5000", FALSE>>,
   <<"bad_leading_dash", "-bad.example.com", FALSE>>,
   <<"bad_empty_port", "example.com:", FALSE>>,
-  <<"bad_alpha_port", "example.com:http", FALSE>> }
+  <<"bad_alpha_port", "example.com:http", FALSE>>,
+  \* exactly one illegal character directly in front of the port colon
+  <<"bad_dash_before_port", "docker-:5000", FALSE>>, <<"bad_underscore_before_port", "registry_:5000", FALSE>>,
+  <<"bad_colon_before_port", "example::5000", FALSE>>, <<"bad_at_before_port", "example@:5000", FALSE>>,
+  <<"bad_dotdot_before_port", "example..:5000", FALSE>> }
 Comps == {
   <<"lower", "alpine", TRUE>>, <<"lower", "r2d2", TRUE>>,
   <<"sep", "my-repo_x.y", TRUE>>, <<"sep", "a__b--c", TRUE>>,
@@ -67,6 +71,7 @@ Paths == {
   <<"plain", "dir/sub", TRUE>>, <<"spaces", "my dir/sub dir", TRUE>>, <<"dots", "./a.b/c", TRUE>>,
   <<"dotdot", "../up/../x", TRUE>>, <<"absolute", "/tmp/layout", TRUE>>, <<"tilde_plus", "~user/a+b", TRUE>>,
   <<"upper", "Some/Dir_1", TRUE>>, <<"tarfile", "path/to/file.tgz", TRUE>>,
+  <<"root", "/", TRUE>>, <<"double_slash", "//", TRUE>>, <<"trailing_slash", "dir/sub/", TRUE>>,
   <<"bad_char", "dir|x", FALSE>>, <<"bad_star", "dir*x", FALSE>>, <<"bad_colon", "c:/x", FALSE>> }
 Schemes == {<<"none", "", TRUE>>, <<"ocidir", "ocidir", TRUE>>, <<"ocifile", "ocifile", TRUE>>,
             <<"unknown", "http", FALSE>>, <<"unknown", "reg", FALSE>>, <<"upper", "OCIDIR", FALSE>>,
